@@ -126,6 +126,7 @@ fn drive<C: CongestionController>(mut cc: C, kind: &str, mss0: u16, steps: &[Ste
     let mut out: BTreeMap<u64, (usize, u64, C::PacketInfo)> = BTreeMap::new();
     let mut next = 0u64;
     let mut insync = compare;
+    let mut delta: i64 = 0;
     let mut o = Outcome { mismatch: None, steps: 0, synced_steps: 0 };
     tr.push(json!({"ev": "reset", "kind": kind, "mss": mss, "cwnd": cc.congestion_window(), "bif": cc.bytes_in_flight(), "t": 0}));
     for (i, st) in steps.iter().enumerate() {
@@ -193,7 +194,11 @@ fn drive<C: CongestionController>(mut cc: C, kind: &str, mss0: u16, steps: &[Ste
             }
             // the window is a float inside the controller and reported truncated: a datagram-size change scales the hidden
             // fraction by up to 9000/1200
-            let tol: i64 = if format!("{:?}", st.op).starts_with("Mtu") { 12 } else { 3 };
+            let is_mtu = format!("{:?}", st.op).starts_with("Mtu");
+            let tol: i64 = if is_mtu { 12 } else { 3 };
+            // ... and what was hidden stays in the window afterwards: carry the offset of that step along
+            let mc = (mc as i64 + delta).max(0) as u64;
+            if is_mtu && (mc as i64 - cwnd as i64).abs() <= tol { delta += cwnd as i64 - mc as i64; }
             if insync {
                 if st.det {
                     o.synced_steps += 1;
